@@ -5,18 +5,17 @@
    next); every theorem quantifies over all decisions, so it holds whatever the data
    plane computes.  Effects follow the statement order of state_engine.py /
    task_dispatcher.py (notify, start_execution, change_state, end_execution,
-   handle_error, asl_state_*, execute_task, handle_rpcmessage_response). *)
+   handle_error, asl_state_*, execute_task, handle_rpcmessage_response).
+
+   A delivered, not yet acknowledged event is kept together with what it is waiting
+   for (its phase): the deferred Task delegate, the Wait timer, or the reply to its
+   task request (with the timer of the task timeout).  In the Python code these are
+   the closures held by timers and the entries of pending_requests/cancellers. *)
 From Coq Require Import List Arith Bool Lia.
 Import ListNotations.
-
-Definition xid := nat.      (* execution *)
-Definition mid := nat.      (* message id (event or reply) *)
-Definition tid := nat.      (* timer id *)
-Definition sname := nat.    (* state name *)
+From LSF Require Export TraceSpec.
 
 Inductive skind := KPass | KChoice | KSucceed | KFail | KWait | KTask.
-
-Inductive status := Running | Succeeded | Failed.
 
 (* what the data plane decides when a state finishes its work *)
 Inductive decision :=
@@ -25,33 +24,16 @@ Inductive decision :=
 | DFailed                (* unhandled error, Fail state *)
 | DRetry.                (* a retrier grants another attempt (Task only) *)
 
-Inductive hkind :=
-| HExecutionStarted | HStateEntered (s : sname) | HStateExited (s : sname)
-| HExecutionSucceeded | HExecutionFailed | HTaskScheduled | HTaskSucceeded | HTaskFailed | HTaskTimedOut.
+Inductive phase :=
+| PDelegate (t : tid)            (* asl_state_Task has armed timer t for asl_state_Task_delegate *)
+| PWait (t : tid)                (* the Wait state's timer *)
+| PPending (t : tid).            (* the task request is out; t is the timer of its timeout *)
 
-Record event := { e_id : mid; e_x : xid; e_state : option sname; e_retry : bool }.
-(* e_state = None: a start event; e_retry: RetryCount is set (StateEntered is not logged again) *)
-
-Inductive effect :=
-| Publish (e : event)
-| Ack (m : mid)
-| Record_ (x : xid) (st : status)
-| Notify (x : xid) (st : status)
-| History (x : xid) (h : hkind)
-| SetTimer (t : tid)
-| ClearTimer (t : tid)
-| SendRpc (corr : mid).
-
-Inductive timer_kind :=
-| TDelegate (e : event)          (* asl_state_Task -> asl_state_Task_delegate *)
-| TWait (e : event)              (* Wait state's on_timeout *)
-| TTimeout (e : event).          (* task timeout of the pending request with correlation id e_id e *)
+Definition timer_of (p : phase) : tid := match p with PDelegate t | PWait t | PPending t => t end.
 
 Record world := {
   queue : list event;                  (* published, not yet delivered *)
-  held : list event;                   (* delivered, not yet acknowledged *)
-  timers : list (tid * timer_kind);
-  pending : list event;                (* pending_requests, keyed by the event id (= correlation id) *)
+  held : list (event * phase);         (* delivered, not yet acknowledged *)
   requests : list mid;                 (* task requests at the workers, not yet answered *)
   replies : list (mid * bool);         (* replies on the reply queue: correlation id, success? *)
   next_id : nat;                       (* every message id used so far is below this *)
@@ -62,7 +44,6 @@ Record world := {
   acked : list mid                     (* every acknowledgement ever made, oldest first *)
 }.
 
-(* what can happen next *)
 (* n: the id the fabric hands out for whatever this step creates (a published event or a timer);
    it must be fresh, i.e. not below the corresponding counter *)
 Inductive input :=
@@ -81,21 +62,25 @@ Fixpoint find_event (m : mid) (l : list event) : option event :=
   | [] => None
   | e :: r => if Nat.eqb (e_id e) m then Some e else find_event m r
   end.
-Fixpoint remove_timer (t : tid) (l : list (tid * timer_kind)) : list (tid * timer_kind) :=
+Fixpoint remove_held (m : mid) (l : list (event * phase)) : list (event * phase) :=
   match l with
   | [] => []
-  | (t', k) :: r => if Nat.eqb t' t then r else (t', k) :: remove_timer t r
+  | (e, p) :: r => if Nat.eqb (e_id e) m then r else (e, p) :: remove_held m r
   end.
-Fixpoint find_timer (t : tid) (l : list (tid * timer_kind)) : option timer_kind :=
+Fixpoint find_held (m : mid) (l : list (event * phase)) : option (event * phase) :=
   match l with
   | [] => None
-  | (t', k) :: r => if Nat.eqb t' t then Some k else find_timer t r
+  | (e, p) :: r => if Nat.eqb (e_id e) m then Some (e, p) else find_held m r
   end.
-Fixpoint timeout_timer_of (m : mid) (l : list (tid * timer_kind)) : option tid :=
+Fixpoint find_by_timer (t : tid) (l : list (event * phase)) : option (event * phase) :=
   match l with
   | [] => None
-  | (t, TTimeout e) :: r => if Nat.eqb (e_id e) m then Some t else timeout_timer_of m r
-  | _ :: r => timeout_timer_of m r
+  | (e, p) :: r => if Nat.eqb (timer_of p) t then Some (e, p) else find_by_timer t r
+  end.
+Fixpoint set_phase (m : mid) (p' : phase) (l : list (event * phase)) : list (event * phase) :=
+  match l with
+  | [] => []
+  | (e, p) :: r => if Nat.eqb (e_id e) m then (e, p') :: r else (e, p) :: set_phase m p' r
   end.
 Fixpoint remove_mid (m : mid) (l : list mid) : list mid :=
   match l with
@@ -113,28 +98,10 @@ Fixpoint get_status (x : xid) (l : list (xid * status)) : option status :=
   | (x', s') :: r => if Nat.eqb x' x then Some s' else get_status x r
   end.
 
-(* applying the effects of a handler to the world, in order *)
-Definition apply_effect (w : world) (f : effect) : world :=
-  match f with
-  | Publish e => {| queue := queue w ++ [e]; held := held w; timers := timers w; pending := pending w; requests := requests w;
-                    replies := replies w; next_id := next_id w; next_tid := next_tid w; statuses := statuses w; notes := notes w; hist := hist w; acked := acked w |}
-  | Ack m => {| queue := queue w; held := remove_event m (held w); timers := timers w; pending := pending w; requests := requests w;
-                replies := replies w; next_id := next_id w; next_tid := next_tid w; statuses := statuses w; notes := notes w; hist := hist w; acked := acked w ++ [m] |}
-  | Record_ x st => {| queue := queue w; held := held w; timers := timers w; pending := pending w; requests := requests w;
-                       replies := replies w; next_id := next_id w; next_tid := next_tid w; statuses := set_status x st (statuses w); notes := notes w; hist := hist w; acked := acked w |}
-  | Notify x st => {| queue := queue w; held := held w; timers := timers w; pending := pending w; requests := requests w;
-                      replies := replies w; next_id := next_id w; next_tid := next_tid w; statuses := statuses w; notes := notes w ++ [(x, st)]; hist := hist w; acked := acked w |}
-  | History x h => {| queue := queue w; held := held w; timers := timers w; pending := pending w; requests := requests w;
-                      replies := replies w; next_id := next_id w; next_tid := next_tid w; statuses := statuses w; notes := notes w; hist := hist w ++ [(x, h)]; acked := acked w |}
-  | SetTimer _ | ClearTimer _ | SendRpc _ => w      (* bookkeeping of timers / requests is done by the handlers below *)
-  end.
-
-Definition apply_effects (w : world) (l : list effect) : world := fold_left apply_effect l w.
-
-(* change_state / end_execution / handle_error for a state that has finished its work *)
 Definition fresh_event (n : nat) (x : xid) (s : sname) (retry : bool) : event :=
   {| e_id := n; e_x := x; e_state := Some s; e_retry := retry |}.
 
+(* change_state / end_execution / handle_error for a state that has finished its work *)
 Definition finish_effects (n : nat) (e : event) (s : sname) (d : decision) : list effect :=
   let x := e_x e in
   match d with
@@ -144,28 +111,33 @@ Definition finish_effects (n : nat) (e : event) (s : sname) (d : decision) : lis
   | DFailed => [Record_ x Failed; History x HExecutionFailed; Notify x Failed]
   end.
 
-Definition bump (n : nat) (w : world) : world :=
-  {| queue := queue w; held := held w; timers := timers w; pending := pending w; requests := requests w; replies := replies w;
-     next_id := S n; next_tid := next_tid w; statuses := statuses w; notes := notes w; hist := hist w; acked := acked w |}.
-Definition bump_t (n : nat) (w : world) : world :=
-  {| queue := queue w; held := held w; timers := timers w; pending := pending w; requests := requests w; replies := replies w;
-     next_id := next_id w; next_tid := S n; statuses := statuses w; notes := notes w; hist := hist w; acked := acked w |}.
+Definition needs_id (d : decision) : bool := match d with DNext _ | DRetry => true | _ => false end.
 
-Definition with_timers (w : world) (t : list (tid * timer_kind)) : world :=
-  {| queue := queue w; held := held w; timers := t; pending := pending w; requests := requests w; replies := replies w;
-     next_id := next_id w; next_tid := next_tid w; statuses := statuses w; notes := notes w; hist := hist w; acked := acked w |}.
-Definition with_pending (w : world) (p : list event) : world :=
-  {| queue := queue w; held := held w; timers := timers w; pending := p; requests := requests w; replies := replies w;
-     next_id := next_id w; next_tid := next_tid w; statuses := statuses w; notes := notes w; hist := hist w; acked := acked w |}.
-Definition with_requests (w : world) (r : list mid) : world :=
-  {| queue := queue w; held := held w; timers := timers w; pending := pending w; requests := r; replies := replies w;
-     next_id := next_id w; next_tid := next_tid w; statuses := statuses w; notes := notes w; hist := hist w; acked := acked w |}.
-Definition with_replies (w : world) (r : list (mid * bool)) : world :=
-  {| queue := queue w; held := held w; timers := timers w; pending := pending w; requests := requests w; replies := r;
-     next_id := next_id w; next_tid := next_tid w; statuses := statuses w; notes := notes w; hist := hist w; acked := acked w |}.
-Definition with_queue_held (w : world) (q h : list event) : world :=
-  {| queue := q; held := h; timers := timers w; pending := pending w; requests := requests w; replies := replies w;
-     next_id := next_id w; next_tid := next_tid w; statuses := statuses w; notes := notes w; hist := hist w; acked := acked w |}.
+(* the id n is consumed (and must be fresh) only when the decision publishes an event *)
+Definition id_ok (w : world) (d : decision) (n : nat) : bool := negb (needs_id d) || Nat.leb (next_id w) n.
+
+(* the state of the world after the effects of finishing event e (which leaves `held`) *)
+Definition finished (w : world) (e : event) (s : sname) (d : decision) (n : nat) (extra_hist : list hkind) : world :=
+  let x := e_x e in
+  let h0 := hist w ++ map (fun h => (x, h)) extra_hist in
+  match d with
+  | DNext s' =>
+      {| queue := queue w ++ [fresh_event n x s' false]; held := remove_held (e_id e) (held w); requests := requests w; replies := replies w;
+         next_id := S n; next_tid := next_tid w; statuses := statuses w; notes := notes w;
+         hist := h0 ++ [(x, HStateExited s)]; acked := acked w ++ [e_id e] |}
+  | DRetry =>
+      {| queue := queue w ++ [fresh_event n x s true]; held := remove_held (e_id e) (held w); requests := requests w; replies := replies w;
+         next_id := S n; next_tid := next_tid w; statuses := statuses w; notes := notes w;
+         hist := h0; acked := acked w ++ [e_id e] |}
+  | DEnd =>
+      {| queue := queue w; held := remove_held (e_id e) (held w); requests := requests w; replies := replies w;
+         next_id := next_id w; next_tid := next_tid w; statuses := set_status x Succeeded (statuses w); notes := notes w ++ [(x, Succeeded)];
+         hist := h0 ++ [(x, HStateExited s); (x, HExecutionSucceeded)]; acked := acked w ++ [e_id e] |}
+  | DFailed =>
+      {| queue := queue w; held := remove_held (e_id e) (held w); requests := requests w; replies := replies w;
+         next_id := next_id w; next_tid := next_tid w; statuses := set_status x Failed (statuses w); notes := notes w ++ [(x, Failed)];
+         hist := h0 ++ [(x, HExecutionFailed)]; acked := acked w ++ [e_id e] |}
+  end.
 
 (* the decision a state kind can take *)
 Definition decision_ok (k : skind) (d : decision) : bool :=
@@ -179,109 +151,121 @@ Definition decision_ok (k : skind) (d : decision) : bool :=
   | _, _ => true
   end.
 
-  (* entering state s with event e (already delivered): what happens at once *)
-Definition enter (kind_of : sname -> skind) (w : world) (e : event) (s : sname) (d : decision) (n : nat) : option (world * list effect) :=
-    let x := e_x e in
-    let entered := if e_retry e then [] else [History x (HStateEntered s)] in
-    let w1 := apply_effects w entered in
-    match kind_of s with
-    | KTask =>
-        (* asl_state_Task: only arms the delegate timer *)
-        if Nat.leb (next_tid w) n
-        then Some (with_timers (bump_t n w1) (timers w1 ++ [(n, TDelegate e)]), entered ++ [SetTimer n])
-        else None
-    | KWait =>
-        if Nat.leb (next_tid w) n
-        then Some (with_timers (bump_t n w1) (timers w1 ++ [(n, TWait e)]), entered ++ [SetTimer n])
-        else None
-    | _ =>
-        if Nat.leb (next_id w) n then
-          let effs := finish_effects n e s d ++ [Ack (e_id e)] in
-          Some (bump n (apply_effects w1 effs), entered ++ effs)
-        else None
-    end.
+Definition with_held (w : world) (h : list (event * phase)) (tid' : nat) (hs : list (xid * hkind)) : world :=
+  {| queue := queue w; held := h; requests := requests w; replies := replies w; next_id := next_id w; next_tid := tid';
+     statuses := statuses w; notes := notes w; hist := hs; acked := acked w |}.
+
+(* entering state s with event e, which has just been taken off the queue *)
+Definition enter (kind_of : sname -> skind) (w : world) (e : event) (s : sname) (d : decision) (n : nat)
+  : option (world * list effect) :=
+  let x := e_x e in
+  let entered := if e_retry e then [] else [HStateEntered s] in
+  let eff_entered := map (History x) entered in
+  match kind_of s with
+  | KTask =>
+      (* asl_state_Task: only arms the delegate timer *)
+      if Nat.leb (next_tid w) n
+      then Some (with_held w (held w ++ [(e, PDelegate n)]) (S n) (hist w ++ map (fun h => (x, h)) entered), eff_entered ++ [SetTimer n])
+      else None
+  | KWait =>
+      if Nat.leb (next_tid w) n
+      then Some (with_held w (held w ++ [(e, PWait n)]) (S n) (hist w ++ map (fun h => (x, h)) entered), eff_entered ++ [SetTimer n])
+      else None
+  | _ =>
+      if id_ok w d n
+      then Some (finished w e s d n entered, eff_entered ++ finish_effects n e s d ++ [Ack (e_id e)])
+      else None
+  end.
+
+Definition with_queue (w : world) (q : list event) : world :=
+  {| queue := q; held := held w; requests := requests w; replies := replies w; next_id := next_id w; next_tid := next_tid w;
+     statuses := statuses w; notes := notes w; hist := hist w; acked := acked w |}.
+
+Definition started (w : world) (x : xid) : world :=
+  {| queue := queue w; held := held w; requests := requests w; replies := replies w; next_id := next_id w; next_tid := next_tid w;
+     statuses := set_status x Running (statuses w); notes := notes w ++ [(x, Running)];
+     hist := hist w ++ [(x, HExecutionStarted)]; acked := acked w |}.
+
+Definition state_of (start_at : sname) (e : event) : sname := match e_state e with Some s => s | None => start_at end.
 
 Definition step (kind_of : sname -> skind) (start_at : sname) (w : world) (i : input) : option (world * list effect) :=
-    match i with
-    | IDeliver m d n =>
-        match find_event m (queue w) with
-        | None => None
-        | Some e =>
-            let w0 := with_queue_held w (remove_event m (queue w)) (held w ++ [e]) in
-            match e_state e with
-            | None =>
-                (* a start event: start_execution, then the StartAt state *)
-                if decision_ok (kind_of start_at) d then
-                  let x := e_x e in
-                  let pre := [Record_ x Running; History x HExecutionStarted; Notify x Running] in
-                  match enter kind_of (apply_effects w0 pre) e start_at d n with
-                  | Some (w2, effs) => Some (w2, pre ++ effs)
-                  | None => None
-                  end
-                else None
-            | Some s => if decision_ok (kind_of s) d then enter kind_of w0 e s d n else None
-            end
-        end
-    | IFire t d n =>
-        match find_timer t (timers w) with
-        | None => None
-        | Some k =>
-            let w0 := with_timers w (remove_timer t (timers w)) in
-            match k with
-            | TDelegate e =>
-                (* asl_state_Task_delegate: send the request, arm the timeout *)
-                if Nat.leb (next_tid w0) n then
-                  let x := e_x e in
-                  let w1 := with_pending (with_timers (bump_t n w0) (timers w0 ++ [(n, TTimeout e)])) (pending w0 ++ [e]) in
-                  let w2 := with_requests w1 (requests w1 ++ [e_id e]) in
-                  Some (apply_effects w2 [History x HTaskScheduled], [SetTimer n; SendRpc (e_id e); History x HTaskScheduled])
-                else None
-            | TWait e =>
-                let s := match e_state e with Some s => s | None => start_at end in
-                if decision_ok KWait d && Nat.leb (next_id w0) n then
-                  let effs := finish_effects n e s d ++ [Ack (e_id e)] in
-                  Some (bump n (apply_effects w0 effs), effs)
-                else None
-            | TTimeout e =>
-                (* the task timed out: the pending request is resolved with States.Timeout *)
-                match find_event (e_id e) (pending w0) with
-                | None => Some (w0, [])
-                | Some _ =>
-                    let s := match e_state e with Some s => s | None => start_at end in
-                    let x := e_x e in
-                    let w1 := with_pending w0 (remove_event (e_id e) (pending w0)) in
-                    let effs := History x HTaskTimedOut :: finish_effects n e s d ++ [Ack (e_id e)] in
-                    match d with
-                    | DEnd => None                     (* a timed out task cannot succeed *)
-                    | _ => if Nat.leb (next_id w0) n then Some (bump n (apply_effects w1 effs), effs) else None
-                    end
+  match i with
+  | IDeliver m d n =>
+      match find_event m (queue w) with
+      | None => None
+      | Some e =>
+          let w0 := with_queue w (remove_event m (queue w)) in
+          match e_state e with
+          | None =>
+              (* a start event: start_execution, then the StartAt state *)
+              if decision_ok (kind_of start_at) d then
+                let x := e_x e in
+                match enter kind_of (started w0 x) e start_at d n with
+                | Some (w2, effs) => Some (w2, [Record_ x Running; History x HExecutionStarted; Notify x Running] ++ effs)
+                | None => None
                 end
-            end
-        end
-    | IWorker corr ok =>
-        if existsb (Nat.eqb corr) (requests w)
-        then Some (with_replies (with_requests w (remove_mid corr (requests w))) (replies w ++ [(corr, ok)]), [])
-        else None
-    | IReply corr d n =>
-        match replies w with
-        | (c, ok) :: rest =>
-            if Nat.eqb c corr then
-              let w0 := with_replies w rest in
-              match find_event corr (pending w0) with
-              | None => Some (w0, [])                (* no matching request: an orphaned reply (acknowledged later) *)
-              | Some e =>
-                  let s := match e_state e with Some s => s | None => start_at end in
-                  let x := e_x e in
-                  let w1 := with_pending w0 (remove_event corr (pending w0)) in
-                  let clr := match timeout_timer_of corr (timers w1) with Some t => [ClearTimer t] | None => [] end in
-                  let w2 := match timeout_timer_of corr (timers w1) with Some t => with_timers w1 (remove_timer t (timers w1)) | None => w1 end in
-                  let h := if ok then HTaskSucceeded else HTaskFailed in
-                  if (match d, ok with DEnd, false => false | _, _ => true end) && Nat.leb (next_id w0) n then
-                    let effs := History x h :: finish_effects n e s d ++ [Ack (e_id e)] in
-                    Some (bump n (apply_effects w2 effs), clr ++ effs)
+              else None
+          | Some s => if decision_ok (kind_of s) d then enter kind_of w0 e s d n else None
+          end
+      end
+  | IFire t d n =>
+      match find_by_timer t (held w) with
+      | None => None
+      | Some (e, p) =>
+          let s := state_of start_at e in
+          let x := e_x e in
+          match p with
+          | PDelegate _ =>
+              (* asl_state_Task_delegate: send the request and arm the timeout (written d = DEnd here);
+                 or InputPath/Parameters fail and the error is handled at once (any other decision) *)
+              match d with
+              | DEnd =>
+                  if Nat.leb (next_tid w) n then
+                    Some ({| queue := queue w; held := set_phase (e_id e) (PPending n) (held w); requests := requests w ++ [e_id e];
+                             replies := replies w; next_id := next_id w; next_tid := S n; statuses := statuses w; notes := notes w;
+                             hist := hist w ++ [(x, HTaskScheduled)]; acked := acked w |},
+                          [SetTimer n; SendRpc (e_id e); History x HTaskScheduled])
                   else None
+              | _ => if id_ok w d n
+                     then Some (finished w e s d n [], finish_effects n e s d ++ [Ack (e_id e)])
+                     else None
               end
-            else None
-        | [] => None
-        end
-    end.
+          | PWait _ =>
+              if decision_ok KWait d && id_ok w d n
+              then Some (finished w e s d n [], finish_effects n e s d ++ [Ack (e_id e)])
+              else None
+          | PPending _ =>
+              (* the task timed out: the pending request is resolved with States.Timeout *)
+              match d with
+              | DEnd => None                     (* a timed out task cannot succeed *)
+              | _ => if id_ok w d n
+                     then Some (finished w e s d n [HTaskTimedOut], History x HTaskTimedOut :: finish_effects n e s d ++ [Ack (e_id e)])
+                     else None
+              end
+          end
+      end
+  | IWorker corr ok =>
+      if existsb (Nat.eqb corr) (requests w)
+      then Some ({| queue := queue w; held := held w; requests := remove_mid corr (requests w); replies := replies w ++ [(corr, ok)];
+                    next_id := next_id w; next_tid := next_tid w; statuses := statuses w; notes := notes w; hist := hist w; acked := acked w |}, [])
+      else None
+  | IReply corr d n =>
+      match replies w with
+      | (c, ok) :: rest =>
+          if Nat.eqb c corr then
+            let w0 := {| queue := queue w; held := held w; requests := requests w; replies := rest; next_id := next_id w; next_tid := next_tid w;
+                         statuses := statuses w; notes := notes w; hist := hist w; acked := acked w |} in
+            match find_held corr (held w) with
+            | Some (e, PPending t) =>
+                let s := state_of start_at e in
+                let x := e_x e in
+                let h := if ok then HTaskSucceeded else HTaskFailed in
+                if (match d, ok with DEnd, false => false | _, _ => true end) && id_ok w d n
+                then Some (finished w0 e s d n [h], ClearTimer t :: History x h :: finish_effects n e s d ++ [Ack (e_id e)])
+                else None
+            | _ => Some (w0, [])                (* no matching request: an orphaned reply (acknowledged later) *)
+            end
+          else None
+      | [] => None
+      end
+  end.
